@@ -214,6 +214,11 @@ func (s *Sim) runShadows(p *Pkt) *shadowResult {
 				s.setBalance(ctx, donor, d, have.Sub(amt))
 				s.setBalance(ctx, orb, d, s.N.App.BankKeeper.GetBalance(ctx, orb, d).Amount.Add(amt))
 			}
+			if in.Native == DenomHuge && p.Seq%2 == 0 {
+				// a prior balance beyond 64 bits (throw-away branch: the supply is not adjusted)
+				big, _ := sdkmath.NewIntFromString("18446744073709551629")
+				s.setBalance(ctx, orb, DenomHuge, s.N.App.BankKeeper.GetBalance(ctx, orb, DenomHuge).Amount.Add(big))
+			}
 			return nil
 		}, false, s.recvCB(full, pkt, rel))
 		s.Stats.Count("shadow_executions")
